@@ -369,6 +369,102 @@ func Purity(w *load.World, c *core.Collector) {
 			}
 		}
 	}
+	// the hash sits in a literal of the function ("weigh := func(server string) …"): its inputs are
+	// read in the literal and translated to the function's own terms (a captured key is the key, a
+	// parameter of the literal is what the function's calls of it pass)
+	for _, af := range rh.AnonFuncs {
+		for _, b := range af.Blocks {
+			for _, in := range b.Instrs {
+				call, ok := in.(*ssa.Call)
+				if !ok || call.Call.StaticCallee() == nil {
+					continue
+				}
+				isHash := false
+				for _, h := range pureHashes {
+					if strings.Contains(call.Call.StaticCallee().String(), h) {
+						isHash = true
+					}
+				}
+				if !isHash {
+					continue
+				}
+				nHash++
+				pKey, pServers := "param:"+purityKey.Name(), "elem(param:"+purityServers.Name()+")"
+				o := ssax.Origins{}
+				for k := range hashInputLabels(call.Call.Args[0], purityKey, 0) {
+					switch {
+					case strings.HasPrefix(k, "freevar:"):
+						name := strings.TrimPrefix(k, "freevar:")
+						switch name {
+						case purityKey.Name():
+							o[pKey] = true
+						default:
+							o[k] = true
+						}
+					case strings.HasPrefix(k, "param:"):
+						idx := -1
+						for i, q := range af.Params {
+							if "param:"+q.Name() == k {
+								idx = i
+							}
+						}
+						if idx < 0 {
+							o[k] = true
+							continue
+						}
+						// what the enclosing function passes
+						n := 0
+						for _, rb := range rh.Blocks {
+							for _, ri := range rb.Instrs {
+								rc, ok := ri.(*ssa.Call)
+								if !ok || rc.Call.IsInvoke() || rc.Call.StaticCallee() != nil && rc.Call.StaticCallee() != af {
+									continue
+								}
+								isAf := rc.Call.StaticCallee() == af
+								if !isAf {
+									for _, fn := range funcValuesOf(w, rc.Call.Value, 0) {
+										if fn == af {
+											isAf = true
+										}
+									}
+								}
+								if !isAf || idx >= len(rc.Call.Args) {
+									continue
+								}
+								n++
+								for kk := range ssax.Prov(rc.Call.Args[idx]) {
+									o[kk] = true
+								}
+							}
+						}
+						if n == 0 {
+							o[k] = true
+						}
+					default:
+						o[k] = true
+					}
+				}
+				var bad []string
+				for k := range o {
+					switch {
+					case k == "const", k == pKey, k == pServers:
+					case strings.HasPrefix(k, "call:strings.") || strings.HasPrefix(k, "call:strconv."):
+					default:
+						bad = append(bad, k)
+					}
+				}
+				sort.Strings(bad)
+				if !o[pKey] || !o[pServers] {
+					bad = append(bad, "missing key or server")
+				}
+				if len(bad) > 0 {
+					c.Add("PURITY", "hash-input", core.Violation, w.At(in), fmt.Sprintf("the score of a server depends on more than (key, that server): %v — owners would change with list order or size", bad), props...)
+				} else {
+					c.Add("PURITY", "hash-input", core.OK, w.At(in), "", props...)
+				}
+			}
+		}
+	}
 	// streaming form: a digest object that is written to and then summed
 	for _, b := range rh.Blocks {
 		for _, in := range b.Instrs {
@@ -2972,6 +3068,16 @@ func shardClosedEvents(fn *ssa.Function, depth int) *wcEvents {
 			}
 			if ld, ok := other.(*ssa.UnOp); ok && ld.Op == token.MUL {
 				if fa, ok := ld.X.(*ssa.FieldAddr); ok && fieldOf(fa) == "cluster.loadedShard.shard" {
+					s := 0
+					if (bo.Op == token.NEQ) != neg {
+						s = 1
+					}
+					ev.edges = append(ev.edges, ssax.Edge{From: bb, Succ: s})
+				}
+			}
+			// the registry has no entry (a nil entry holds no shard either)
+			if lk, ok := other.(*ssa.Lookup); ok && !lk.CommaOk {
+				if p, _ := ssax.Path(lk.X); strings.Contains(p, "shardStore") {
 					s := 0
 					if (bo.Op == token.NEQ) != neg {
 						s = 1
